@@ -36,6 +36,9 @@
    them on the real code, which must not reproduce them any more):
      Dev_MultiWalPanic   Checkpoint.Document panicked for a checkpoint with several WALs (a DB restored from >= 2 handles
                          keeps the composite checkpoint in its list, so its NEXT checkpoint crashed the operator)
+     Dev_DeleteMissingFails  deleting a WAL file that is already gone was an error on the local file system: two new operators
+                         restored from the same old checkpoint both delete its WAL in their first retention round; the
+                         second one failed, kept the removal pending and failed every later checkpoint
      Dev_ConcatLevels    the composite's levels were the per-level concatenation of the documents' levels in handle
                          (= ack) order: below L0 the binary search over such a level misses tables (not sorted; and after
                          a second rescale the tables of different instances overlap, which no order repairs)
@@ -54,15 +57,16 @@ CONSTANTS
   MaxW1, MaxW2, MaxW3,  \* write budget of generation 1, 2, 3
   MaxFl,       \* flushes per operator and generation
   MaxWm,       \* watermark advances per generation
+  MaxCk,       \* checkpoints per generation (a second one follows a retention round of the first)
   Regimes,     \* subset of {"major", "minor"}
   MaxLen,      \* history bound for behaviour generation
   Canon,       \* TRUE: only canonical orders of independent steps (operators in turn, writes of a segment in
                \* entry order, keys' groups non-decreasing) -- exhaustive runs; FALSE: scripted behaviours
-  Dev_MultiWalPanic, Dev_ConcatLevels, Dev_SeqFromFirst, Dev_ReplayAll
+  Dev_MultiWalPanic, Dev_ConcatLevels, Dev_DeleteMissingFails, Dev_SeqFromFirst, Dev_ReplayAll
 
-VARIABLES cfg, gen, pc, ops, ckpts, oracle, bud, cur, stamp, crashed, hist
-vars == <<cfg, gen, pc, ops, ckpts, oracle, bud, cur, stamp, crashed, hist>>
-view == <<cfg, gen, pc, ops, ckpts, oracle, bud, cur, stamp, crashed>>
+VARIABLES cfg, gen, pc, ops, ckpts, files, oracle, bud, cur, stamp, crashed, hist
+vars == <<cfg, gen, pc, ops, ckpts, files, oracle, bud, cur, stamp, crashed, hist>>
+view == <<cfg, gen, pc, ops, ckpts, files, oracle, bud, cur, stamp, crashed>>
 
 P == INSTANCE Partition WITH KGH <- <<>>, GridMaxCount <- 1, GridMaxN <- 1, BoundaryCount <- 1, BoundaryNs <- {},
                              Keep <- 0, DeclMaxCount <- 0, AssignCounts <- {}, AssignMaxOps <- 0, s <- 0
@@ -138,7 +142,7 @@ VisTimers(db)   == {e \in TimerEnts : Owns(db, e) /\ Vis(db, e, PrefixOf(e)) # 0
 
 (* ------------------------------------------------------------- database *)
 FreshDB(rng, reg) == [rng |-> rng, reg |-> reg, seq |-> 0, mem |-> EmptyFn, wal |-> <<>>, lv |-> [l \in 1..6 |-> <<>>],
-                      nw |-> 0, wm |-> 0, fl |-> 0, lastE |-> 0, canFl |-> FALSE]
+                      src |-> {}, stuck |-> FALSE, wm |-> 0, fl |-> 0, lastE |-> 0, canFl |-> FALSE]
 MemPut(mem, e, s, v) == [x \in DOMAIN mem \cup {e} |-> IF x = e THEN [s |-> s, v |-> v] ELSE mem[x]]
 DbWrite(db, e, v) == [db EXCEPT !.seq = @ + 1, !.mem = MemPut(@, e, db.seq + 1, v), !.wal = Append(@, [e |-> e, v |-> v])]
 RECURSIVE DbWriteAll(_, _)
@@ -163,7 +167,7 @@ Restore(rng, reg, docs) ==
                      ELSE IF Dev_ConcatLevels THEN [l \in 1..6 |-> cat(l)]
                      ELSE [l \in 1..6 |-> IF l = 1 THEN all ELSE <<>>]
            latest == IF Dev_SeqFromFirst THEN Latest(docs[1].lv) ELSE Latest(lv)
-           base   == [FreshDB(rng, reg) EXCEPT !.lv = lv, !.seq = latest, !.nw = Len(docs)]
+           base   == [FreshDB(rng, reg) EXCEPT !.lv = lv, !.seq = latest, !.src = {docs[i].wid : i \in 1..Len(docs)}]
            walAll == Flat([i \in 1..Len(docs) |-> docs[i].wal])
            mine   == SelectSeq(walAll, LAMBDA w : Dev_ReplayAll \/ P!Includes(rng, Grp(w.e)))
        IN DbWriteAll(base, mine)
@@ -175,14 +179,14 @@ TmSeq(S) == LET q == SortedSeq({Ord(e) : e \in S}) IN [i \in 1..Len(q) |-> <<Key
 ExpSnap == [st |-> oracle.st, tm |-> TmSeq(oracle.tm)]
 Lay(db) == [l \in 1..6 |-> Len(db.lv[l])]
 Log(r) == hist' = Append(hist, r)
-Budget(g) == [w |-> IF g = 1 THEN MaxW1 ELSE IF g = 2 THEN MaxW2 ELSE MaxW3, wm |-> MaxWm]
+Budget(g) == [w |-> IF g = 1 THEN MaxW1 ELSE IF g = 2 THEN MaxW2 ELSE MaxW3, wm |-> MaxWm, ck |-> MaxCk]
 NOps == Len(ops)
 
 InitWith(c, g, m, reg) ==
   /\ cfg = [count |-> c, grp |-> g]
   /\ gen = 1 /\ pc = "run"
   /\ ops = [i \in 1..m |-> FreshDB(P!Ranges(c, m)[i], reg)]
-  /\ ckpts = <<>>
+  /\ ckpts = <<>> /\ files = {}
   /\ oracle = [st |-> [k \in 1..NKeys |-> 0], tm |-> {}]
   /\ bud = Budget(1) /\ cur = 1 /\ stamp = 0 /\ crashed = FALSE
   /\ hist = <<[a |-> "Init", count |-> c, grp |-> g, n |-> m, reg |-> reg]>>
@@ -203,7 +207,7 @@ Write(o, e, put) ==
         /\ Log([a |-> "W", o |-> o, k |-> KeyOf(e), t |-> IF IsTimer(e) THEN TimeOf(e) ELSE 0, v |-> v,
                 exp |-> [st |-> oracle'.st, tm |-> TmSeq(oracle'.tm)], lay |-> Lay(db)])
   /\ stamp' = stamp + 1 /\ bud' = [bud EXCEPT !.w = @ - 1] /\ cur' = o
-  /\ UNCHANGED <<cfg, gen, pc, ckpts, crashed>>
+  /\ UNCHANGED <<cfg, gen, pc, ckpts, files, crashed>>
 
 \* the memtable of operator o fills up with the write just made (the harness pads that value): flush + compaction
 Flush(o) ==
@@ -212,7 +216,7 @@ Flush(o) ==
      /\ ops' = [ops EXCEPT ![o] = db]
      /\ Log([a |-> "Flush", o |-> o, exp |-> ExpSnap, lay |-> Lay(db)])
   /\ cur' = o
-  /\ UNCHANGED <<cfg, gen, pc, ckpts, oracle, bud, stamp, crashed>>
+  /\ UNCHANGED <<cfg, gen, pc, ckpts, files, oracle, bud, stamp, crashed>>
 
 \* watermark t reaches operator o: every pending timer it sees up to t fires (and is deleted)
 AdvanceWm(o, t) ==
@@ -226,24 +230,43 @@ AdvanceWm(o, t) ==
         /\ Log([a |-> "Wm", o |-> o, t |-> t, fire |-> TmSeq(want), pred |-> TmSeq(fired),
                 exp |-> [st |-> oracle.st, tm |-> TmSeq(oracle.tm \ want)], lay |-> Lay(db)])
   /\ bud' = [bud EXCEPT !.wm = @ - 1] /\ cur' = o
-  /\ UNCHANGED <<cfg, gen, pc, ckpts, stamp, crashed>>
+  /\ UNCHANGED <<cfg, gen, pc, ckpts, files, stamp, crashed>>
 
 Perms(n) == {f \in [1..n -> 1..n] : \A a, b \in 1..n : a # b => f[a] # f[b]}
-CkptOf(db) == [rng |-> db.rng, lv |-> db.lv, wal |-> db.wal]
-WouldPanic == Dev_MultiWalPanic /\ \E o \in 1..NOps : ops[o].nw > 1
+\* the WAL file a checkpoint seals is named after the checkpoint (stamp counts them too) and the operator
+CkptOf(db, wid) == [rng |-> db.rng, lv |-> db.lv, wal |-> db.wal, wid |-> wid]
+WouldPanic == Dev_MultiWalPanic /\ \E o \in 1..NOps : Cardinality(ops[o].src) > 1
+CkptFails  == WouldPanic \/ \E o \in 1..NOps : ops[o].stuck
 
 \* barrier: every operator checkpoints; the job records the acknowledgements in the order perm
 TakeCkpt(perm) ==
-  /\ pc = "run" /\ gen <= NGens
-  /\ crashed' = WouldPanic
-  /\ ckpts' = [i \in 1..NOps |-> CkptOf(ops[perm[i]])]
-  /\ pc' = "acked"
-  /\ Log([a |-> "Ckpt", perm |-> perm, exp |-> ExpSnap, crash |-> WouldPanic])
-  /\ UNCHANGED <<cfg, gen, ops, oracle, bud, cur, stamp>>
+  /\ pc = "run" /\ bud.ck > 0 /\ (gen <= NGens \/ bud.ck > 1)
+  /\ crashed' = CkptFails
+  /\ ckpts' = [i \in 1..NOps |-> CkptOf(ops[perm[i]], (stamp + 1) * 10 + perm[i])]
+  /\ files' = files \cup {(stamp + 1) * 10 + o : o \in 1..NOps}
+  /\ pc' = "acked" /\ stamp' = stamp + 1 /\ bud' = [bud EXCEPT !.ck = @ - 1]
+  /\ ops' = [o \in 1..NOps |-> [ops[o] EXCEPT !.canFl = FALSE]]     \* a flush directly follows the write that causes it
+  /\ Log([a |-> "Ckpt", perm |-> perm, exp |-> ExpSnap, crash |-> CkptFails])
+  /\ UNCHANGED <<cfg, gen, oracle, cur>>
+
+\* the job goes on with the same operators: the completed checkpoint is the only retained one, every operator drops
+\* the (composite) checkpoint it was restored from and deletes the WAL files of that checkpoint (operators in turn)
+RECURSIVE RetainFold(_, _, _)
+RetainFold(os, i, fs) ==
+  IF i > Len(os) THEN [ops |-> os, files |-> fs]
+  ELSE LET miss == \E w \in os[i].src : w \notin fs
+           db   == [os[i] EXCEPT !.src = {}, !.stuck = @ \/ (Dev_DeleteMissingFails /\ miss)]
+       IN RetainFold([os EXCEPT ![i] = db], i + 1, fs \ os[i].src)
+Resume ==
+  /\ pc = "acked" /\ ~crashed /\ bud.ck > 0
+  /\ LET r == RetainFold(ops, 1, files) IN ops' = r.ops /\ files' = r.files
+  /\ pc' = "run" /\ ckpts' = <<>>
+  /\ Log([a |-> "Resume", exp |-> ExpSnap])
+  /\ UNCHANGED <<cfg, gen, oracle, bud, cur, stamp, crashed>>
 
 \* jobs.Assembly.Deploy with n2 operators from the recorded checkpoint
 Deploy(n2, reg) ==
-  /\ pc = "acked" /\ ~crashed
+  /\ pc = "acked" /\ ~crashed /\ gen <= NGens
   /\ LET to   == P!Ranges(cfg.count, n2)
          from == [i \in 1..Len(ckpts) |-> ckpts[i].rng]
          A    == P!Assign(to, from)
@@ -255,14 +278,14 @@ Deploy(n2, reg) ==
                 may  |-> [j \in 1..n2 |-> SortedSeq({x - 1 : x \in {y \in 1..Len(from) : P!SharesGroup(to[j], from[y]) \/ P!Size(from[y]) = 0}})],
                 exp |-> ExpSnap, lay |-> [j \in 1..n2 |-> Lay(new[j])]])
   /\ gen' = gen + 1 /\ pc' = "run" /\ bud' = Budget(gen + 1) /\ cur' = 1 /\ ckpts' = <<>>
-  /\ UNCHANGED <<cfg, oracle, stamp, crashed>>
+  /\ UNCHANGED <<cfg, files, oracle, stamp, crashed>>
 
 \* end of the behaviour: the operators of the last generation take one more checkpoint (they must be able to)
 Finish ==
   /\ pc = "run" /\ gen = NGens + 1
-  /\ crashed' = WouldPanic /\ pc' = "done"
-  /\ Log([a |-> "Finish", exp |-> ExpSnap, crash |-> WouldPanic])
-  /\ UNCHANGED <<cfg, gen, ops, ckpts, oracle, bud, cur, stamp>>
+  /\ crashed' = CkptFails /\ pc' = "done"
+  /\ Log([a |-> "Finish", exp |-> ExpSnap, crash |-> CkptFails])
+  /\ UNCHANGED <<cfg, gen, ops, ckpts, files, oracle, bud, cur, stamp>>
 
 Done == pc = "done" \/ crashed
 Next ==
@@ -272,6 +295,7 @@ Next ==
      \/ \E o \in 1..NOps, t \in Times : AdvanceWm(o, t)
      \/ \E p \in Perms(NOps) : TakeCkpt(p)
      \/ \E n2 \in 1..MaxOps, reg \in Regimes : Deploy(n2, reg)
+     \/ Resume
      \/ Finish
 Spec == Init /\ [][Next]_vars
 
@@ -281,7 +305,7 @@ StateOK  == \A o \in 1..NOps : \A k \in 1..NKeys : Owns(ops[o], StateEnt(k)) => 
 TimersOK == \A o \in 1..NOps : VisTimers(ops[o]) = {e \in oracle.tm : Owns(ops[o], e)}
 \* every key group has exactly one owner among the operators of a generation (so the two above cover every key)
 OneOwner == \A k \in 1..NKeys : Cardinality({o \in 1..NOps : Owns(ops[o], StateEnt(k))}) = 1
-\* the rescaled job keeps working: checkpointing again does not crash an operator
+\* the rescaled job keeps working: checkpointing again neither crashes an operator nor fails
 NoCrash  == ~crashed
 \* sequence numbers continue above everything loaded: a memtable entry is newer than every table entry of its key
 SeqOK    == \A o \in 1..NOps : \A t \in AllTables(ops[o].lv) : t.end <= ops[o].seq
